@@ -205,6 +205,17 @@ CHECKS = {
              "outside the model.",
         note=TRUST + "hook delivery, os.time() granularity and C-function duration are runtime behaviour; mw.ustring stubbed.",
         ref="DESIGN.md section 4 C07"),
+    "C06": dict(
+        technique="Coq proof (programs stay inside the capability closure; the closure of the live runtime's object graph, regenerated each run, contains no forbidden node) + attack corpus executed for real",
+        text="Theorems c06_programs_stay_in_the_closure (generic), c06_closure_has_no_forbidden_node and c06_confined over the "
+             "object graph read from a fresh runtime on every run (environment, frame, string metatable; fields, metatables, "
+             "attributes lupa exposes on Python objects, results of require/_cached_mod for every host package name): no host "
+             "io/os/package/debug function or table, real global table, load*/setfenv/getfenv, bridge object or non-helper "
+             "Python object is reachable. About 50 probe modules, including ones that try to read and write files, run a command "
+             "and write to the page database, are executed through #invoke and their effects checked. PARTIAL: what arbitrary "
+             "Lua closures and C functions may return is not modelled (only require/_cached_mod have call summaries).",
+        note=TRUST + "graph extraction (host-side walker, lupa attribute semantics) trusted; mw.ustring stubbed.",
+        ref="DESIGN.md section 4 C06"),
 }
 
 NOT_YET = "check not built yet in this round (planned, see DESIGN.md section 8)"
